@@ -393,6 +393,10 @@ impl PairTable {
     }
 
     spec fn items(&self) -> ISet<u32> { ISet::new(|c: u32| c != EMPTY && pholds(self.slots@, c)) }
+    // one more item fits under the 3/4 load, or the table may still be doubled
+    spec fn grow_ok(&self) -> bool {
+        4 * (self.num_items as int + 1) <= 3 * self.slots@.len() || (self.lg_size < 26 && self.lg_size + 2 <= self.num_valid_bits)
+    }
 
     fn must_insert(&mut self, item: u32)
       requires pshape(old(self).slots@, old(self).num_valid_bits, old(self).lg_size), (item as int) < pow2(old(self).num_valid_bits as nat), item != EMPTY,
@@ -419,11 +423,14 @@ impl PairTable {
 
 
     fn maybe_insert(&mut self, item: u32) -> (r: bool)
-      requires old(self).wf(), (item as int) < pow2(old(self).num_valid_bits as nat), item != EMPTY, old(self).lg_size < 26,
-        old(self).lg_size + 2 <= old(self).num_valid_bits,
+      requires old(self).wf(), (item as int) < pow2(old(self).num_valid_bits as nat), item != EMPTY,
+        // the table is doubled (rebuild(lg_size + 1), which asserts lg_size + 1 <= 26 and lg_size + 2 <= num_valid_bits) exactly when the
+        // new item does not fit under the 3/4 load: the weakest precondition under which the body does not panic
+        /*@C17.pairtable.maybe_insert.room*/ old(self).grow_ok(),
       ensures final(self).wf(), final(self).num_valid_bits == old(self).num_valid_bits,
         r == !old(self).items().contains(item),
         final(self).items() == old(self).items().insert(item),
+        /*@C05.pairtable.maybe_insert.count*/ final(self).num_items == old(self).num_items + (if r { 1u32 } else { 0u32 }),
     {
         let ghost ss0 = self.slots@;
         proof { lemma_pshl(self.lg_size); lemma_pow2_strictly_increases(1, self.lg_size as nat); lemma2_to64(); }
@@ -456,7 +463,7 @@ impl PairTable {
             (1u32 << self.lg_size) == self.slots@.len(), self.slots@.len() <= 0x400_0000,
             self.lg_size == old(self).lg_size || 4 * self.num_items <= 3 * self.slots@.len(),
             4 * self.num_items <= 3 * self.slots@.len() + 4, self.lg_size <= old(self).lg_size + 1,
-            old(self).lg_size + 2 <= old(self).num_valid_bits, old(self).lg_size < 26,
+            old(self).grow_ok(), self.num_items == old(self).num_items + 1, old(self).slots@.len() == pow2(old(self).lg_size as nat),
           decreases 27 - self.lg_size
         {
             proof { lemma_pshl((self.lg_size + 1) as u8); lemma_pow2_unfold((self.lg_size + 1) as nat); lemma_pshl(self.lg_size);
